@@ -20,6 +20,7 @@ DELS = {
     "Dt": ("t", "delete from t where k < 3", lambda r: r[0] < 3),
     "Du": ("u", "delete from u where a is null", lambda r: r[0] is None),
     "DtA": ("t", "delete from t", lambda r: True),       # every row: a later compaction produces no row-set
+    "Dt1": ("t", "delete from t where k = 1", lambda r: r[0] == 1),     # one row: a delete vector shorter than an earlier one of the same row-set
 }
 OTHER = {
     "CV": "create view vw(x) as select k from t",
@@ -133,7 +134,10 @@ def op_step(op):
 
 # start states: empty; populated (two tables, two row-sets); churned (every row of two row-sets deleted and
 # the row-sets compacted away: only delete vectors of vanished row-sets are left behind)
-PREFIXES = {"empty": [], "populated": ["CTt", "It1", "It2", "CTu", "Iu1"], "churned": ["CTt", "It1", "It2", "Dt", "DtA", "C"]}
+# churned+2R: ... and the database reopened twice (the first reopen rewrites the manifest without the vanished row-sets and
+# vectors, the second derives the id counters from the rewritten manifest: row-set and delete-vector ids are then re-issued)
+PREFIXES = {"empty": [], "populated": ["CTt", "It1", "It2", "CTu", "Iu1"], "churned": ["CTt", "It1", "It2", "Dt", "DtA", "C"],
+            "churned+2R": ["CTt", "It1", "It2", "Dt", "DtA", "C", "R", "R"]}
 
 
 def histories(d, prefix=()):
@@ -268,8 +272,8 @@ def judge(chk, case, r, states):
 def run(tier, seed):
     d = depth(tier)
     chk = core.Check("C03", tier, "model_checking",
-                     f"all model-valid histories of exactly {d} operations from the empty database and {d - 1} operations from two non-initial start states (populated: two tables, two row-sets; churned: two fully deleted row-sets compacted away) (shorter ones are covered as prefixes via the reopen marks) over "
-                     "{create/drop table t,u; 4 insert batches; 3 deletes (two partial, one of every row); create/drop view; create index; create function; forced compaction; reopen} "
+                     f"all model-valid histories of exactly {d} operations from the empty database and {d - 1} operations from three non-initial start states (populated: two tables, two row-sets; churned: two fully deleted row-sets compacted away; churned and reopened twice) (shorter ones are covered as prefixes via the reopen marks) over "
+                     "{create/drop table t,u; 4 insert batches; 4 deletes (three partial, one of every row); create/drop view; create index; create function; forced compaction; reopen} "
                      f"x {len(OPTS)} storage options; each followed by two more reopen cycles and a post-reopen script; oracle: table rows and definitions == model "
                      "after every reopen, every statement acknowledged, post script (inserts into every table, read back at once and after one more reopen) agrees with the model. non-trivial = history has DML or a reopen", seed)
     cs = [{"opts": o, "history": h} for o in OPTS for pf in PREFIXES.values() for h in histories(d if not pf else d - 1, pf)]
